@@ -258,16 +258,17 @@ func (m *BaseUndoLogManager) Undo(ctx context.Context, dbType types.DBType, xid 
 	if err != nil {
 		return err
 	}
-
 	tx, err := conn.BeginTx(ctx, &sql.TxOptions{})
 	if err != nil {
 		return err
 	}
+
+	// every path that does not commit rolls back; cleanup errors must never replace the result
+	committed := false
 	defer func() {
-		if err != nil {
-			if err = tx.Rollback(); err != nil {
-				log.Errorf("rollback fail, xid: %s, branchID:%s err:%v", xid, branchID, err)
-				return
+		if !committed {
+			if rollbackErr := tx.Rollback(); rollbackErr != nil {
+				log.Errorf("rollback fail, xid: %s, branchID:%v err:%v", xid, branchID, rollbackErr)
 			}
 		}
 	}()
@@ -278,9 +279,8 @@ func (m *BaseUndoLogManager) Undo(ctx context.Context, dbType types.DBType, xid 
 		return err
 	}
 	defer func() {
-		if err = stmt.Close(); err != nil {
-			log.Errorf("stmt close fail, xid: %s, branchID:%s err:%v", xid, branchID, err)
-			return
+		if closeErr := stmt.Close(); closeErr != nil {
+			log.Errorf("stmt close fail, xid: %s, branchID:%v err:%v", xid, branchID, closeErr)
 		}
 	}()
 
@@ -290,9 +290,8 @@ func (m *BaseUndoLogManager) Undo(ctx context.Context, dbType types.DBType, xid 
 		return err
 	}
 	defer func() {
-		if err = rows.Close(); err != nil {
-			log.Errorf("rows close fail, xid: %s, branchID:%s err:%v", xid, branchID, err)
-			return
+		if closeErr := rows.Close(); closeErr != nil {
+			log.Errorf("rows close fail, xid: %s, branchID:%v err:%v", xid, branchID, closeErr)
 		}
 	}()
 
@@ -379,9 +378,10 @@ func (m *BaseUndoLogManager) Undo(ctx context.Context, dbType types.DBType, xid 
 	}
 
 	if err = tx.Commit(); err != nil {
-		log.Errorf("[Undo] execute on fail, err: %v", err)
-		return nil
+		log.Errorf("[Undo] commit fail, err: %v", err)
+		return err
 	}
+	committed = true
 	return nil
 }
 
